@@ -1,4 +1,5 @@
 #![allow(dead_code, unused_variables, unused_assignments, unused_imports)]
+mod c13;
 mod crypto;
 mod gen;
 mod interpose;
